@@ -859,7 +859,7 @@ func tthHostileCases(c *Ctx) []json.RawMessage {
 }
 
 func checkC06(c *Ctx) {
-	c.rule = "MC: every admissible frame of a bounded parameter domain (entry orders, ACL token, every padding residue) parses back to its parameters and has the computed info size; all 65536 flags. TRACE: parameter sets (all flags (quick: stride 97), every padding residue, info sizes 65515..65540 stepping by 1 around the 65536 limit, 64KiB-scale values, unsupported protocol ids, random maps with arbitrary bytes and the ACL key) through EncodeToBytes and Encode over a stream-backed writer (tth_enc: error iff InfoSize > 65536, layout, size field, written = header length, Parse(frame) = param) and then DecodeFromBytes / Decode over bytes- and stream-backed readers under every fragmentation with a pattern payload behind the header (tth_dec: params, HeaderLen, PayloadLen arithmetic, ReadLen, IsTTHeader/IsStreaming). BIG COLLECTIONS (Go monitor; the expectation is computed in Go from the data that was encoded, because TLC's map comparison is quadratic): header sections of 255..9000 entries (int, str, both + ACL token), both decoders. Near-double dictionary keys (a NUL / space / 0xff before or after a well-known key), alone and next to the key they resemble; entries at their minimum encoded size (empty key, one-byte keys, empty values) in 1..256 entries; GIANT VALUES (Go monitor): keys / values / tokens of 64 KiB .. 8 GiB over a discarding writer must be refused."
+	c.rule = "MC: every admissible frame of a bounded parameter domain (entry orders, ACL token, every padding residue) parses back to its parameters and has the computed info size; all 65536 flags. TRACE: parameter sets (all flags (quick: stride 97), every padding residue, info sizes 65515..65540 stepping by 1 around the 65536 limit, 64KiB-scale values, unsupported protocol ids, random maps with arbitrary bytes and the ACL key) through EncodeToBytes and Encode over a stream-backed writer (tth_enc: error iff InfoSize > 65536, layout, size field, written = header length, Parse(frame) = param) and then DecodeFromBytes / Decode over bytes- and stream-backed readers under every fragmentation with a pattern payload behind the header (tth_dec: params, HeaderLen, PayloadLen arithmetic, ReadLen, IsTTHeader/IsStreaming). BIG COLLECTIONS (Go monitor; the expectation is computed in Go from the data that was encoded, because TLC's map comparison is quadratic): header sections of 255..9000 entries (int, str, both + ACL token), both decoders. Near-double dictionary keys (a NUL / space / 0xff before or after a well-known key), alone and next to the key they resemble; entries at their minimum encoded size (empty key, one-byte keys, empty values) in 1..256 entries; GIANT VALUES (Go monitor): keys / values / tokens of 64 KiB .. 8 GiB over a discarding writer must be refused. Every int meta key 0..40 x the constant values of the package."
 	c.MC("MC_TTHeader.tla", "MC_TTHeader.cfg", 4)
 	c.TraceCheck(famTTHC06, append(tthEncCases(c), tthUtilCases(c)...))
 	bigHeaderMonitor(c, "big-C06")
